@@ -157,6 +157,72 @@ pub fn run(ctx: &Ctx, rep: &mut Report) {
                     gen::run_message(rep, PID, Some(11), &bits, via_for(n), b.name);
                     rep.count(value_class(f.key, width, v));
                 }
+                // the sentinel and its neighbours under every special sender number, with all /
+                // none of the other optional fields at their own sentinels
+                if matches!(value_class(f.key, width, v), "sentinel" | "sentinel-neighbour") && !(f.start < 38 && f.start + f.width > 8) {
+                    for (mi, m) in gen::SPECIAL_MMSI.iter().enumerate() {
+                        let mut bits = fresh(b, &mut r);
+                        if mi % 2 == 0 {
+                            for (oi, o) in opts.iter().enumerate() {
+                                if oi != fi {
+                                    bits.put(o.start as usize, o.width as usize, sentinel_of(o.key, o.width as usize).unwrap());
+                                }
+                            }
+                        }
+                        bits.put(8, 30, *m as u64);
+                        bits.put(f.start as usize, width, v);
+                        n += 1;
+                        rep.class(format!("{}|{}|special-sender", b.name, f.key));
+                        gen::run_message(rep, PID, Some(11), &bits, via_for(n), b.name);
+                    }
+                }
+            }
+        }
+    }
+    // calendar corners: every combination of the notable values of the date and time fields of a
+    // message (first / last valid value, the 'not available' code and its neighbours, raw maximum,
+    // month ends): a date-time field is absent exactly at its own code, whatever the others say
+    {
+        fn notable(key: &str) -> &'static [u64] {
+            match key {
+                "year" => &[0, 1, 2024, 9999, 16383],
+                "month" | "eta_month_utc" => &[0, 1, 2, 6, 12, 13, 15],
+                "day" | "eta_day_utc" => &[0, 1, 28, 29, 30, 31],
+                "hour" | "eta_hour_utc" => &[0, 12, 23, 24, 25, 31],
+                "minute" | "second" | "eta_minute_utc" => &[0, 30, 59, 60, 61, 63],
+                _ => &[],
+            }
+        }
+        let mut item2 = 0u64;
+        for b in gen::BRANCHES.iter() {
+            let bits0 = fresh(b, &mut r);
+            let fs: Vec<ExpF> = match decode_ref(&Bits::from_bytes(&bits0.to_bytes())) {
+                RefOut::Msg(m) => m.f.into_iter().filter(|f| !notable(f.key).is_empty() && (f.start + f.width) as usize <= b.len).collect(),
+                _ => Vec::new(),
+            };
+            if fs.len() < 2 {
+                continue;
+            }
+            let total: u64 = fs.iter().map(|f| notable(f.key).len() as u64).product();
+            for combo in 0..total {
+                if !ctx.mine(item2 / 64) {
+                    item2 += 1;
+                    continue;
+                }
+                item2 += 1;
+                let mut bits = fresh(b, &mut r);
+                let mut x = combo;
+                for f in &fs {
+                    let vs = notable(f.key);
+                    bits.put(f.start as usize, f.width as usize, vs[(x % vs.len() as u64) as usize]);
+                    x /= vs.len() as u64;
+                }
+                n += 1;
+                if combo % 997 == 0 {
+                    rep.class(format!("{}|calendar-corners", b.name));
+                }
+                gen::run_message(rep, PID, Some(11), &bits, via_for(n), b.name);
+                rep.count("calendar-corner");
             }
         }
     }
